@@ -100,6 +100,9 @@ func vfGenName(rt *rapid.T, label string) string {
 		i := rapid.IntRange(0, len(s)).Draw(rt, label+"pos")
 		return s[:i] + h + s[i:]
 	}
+	if rapid.IntRange(0, 29).Draw(rt, label+"long") == 0 {
+		return rapid.StringMatching(`[-_.a-zA-Z0-9]{200,400}`).Draw(rt, label+"longv")
+	}
 	return rapid.StringMatching(`[-_.a-zA-Z0-9]{1,12}`).Draw(rt, label)
 }
 
